@@ -135,6 +135,13 @@ def cases(tier, seed):  # noqa: ARG001
                 if (fam in reps and k == 0) or (tier == "thorough" and k == 1 and idx == 0):
                     c["cli"] = True
                 yield c
+    # silicon revisions whose TrustZone register set is not the one of the latest revision: everything that depends on
+    # the revision (preset size, register names) must follow the revision of the configuration / of the parse call
+    for fam, rev in G.tz_revisions():
+        for info in G.images(fam):
+            for k in range(2 if tier == "quick" else 24):
+                yield {"kind": "gen", "family": fam, "target": info["target"], "auth": info["auth"], "k": k, "rev": rev,
+                       "want": {"revision": rev, "tz": "custom" if k % 2 == 0 else None}}
 
 
 def _info(family, target, auth):
@@ -427,7 +434,7 @@ def _run(case, ctx, b, SPSDKError, MasterBootImage):  # noqa: C901
     ctx.count("export_ok")
     ctx.count(f"accepted/{export_mixin(b)}")
     is_ivt = any(x.startswith("Mbi_MixinIvt") for x in b.mixins)
-    prof = G.rom_profile(family, info)
+    prof = G.rom_profile(family, info, b.revision)
 
     # ---- 2. header words -------------------------------------------------------------------
     rep = None
@@ -489,7 +496,7 @@ def _run(case, ctx, b, SPSDKError, MasterBootImage):  # noqa: C901
     ctx.count("parse_attempted")
     amb = ambiguity(b)
     try:
-        par = MasterBootImage.parse(family, data, dek=b.dek)
+        par = MasterBootImage.parse(family, data, dek=b.dek, revision=b.revision)
     except Exception as e:  # pylint: disable=broad-except
         if not core.is_refusal(e) and core.origin_of(e) != "repo":
             raise
@@ -510,7 +517,7 @@ def _run(case, ctx, b, SPSDKError, MasterBootImage):  # noqa: C901
     if same_class and b.dek and not b.has("ExportMixinAppTrustZoneCertBlockEncrypt"):
         ctx.count("parse_without_key")
         try:
-            par_nk = MasterBootImage.parse(family, data, dek=None)
+            par_nk = MasterBootImage.parse(family, data, dek=None, revision=b.revision)
         except Exception as e:  # pylint: disable=broad-except
             if not core.is_refusal(e) and core.origin_of(e) != "repo":
                 raise
